@@ -12,6 +12,7 @@ fn strategy(tier: Tier) -> BoxedStrategy<LedgerCase> {
     let mut p = GenParams::ledger();
     p.max_rows = tier.pick(18, 36);
     p.usd_norate = false; // the binary-level sample must not need the network
+    p.secs = vec!["FOO", "BAR", "foo", "XYZ.TO", "Bar"]; // distinct securities that are equal when case is ignored
     (ledger_strategy(p, 3), crate::gen::intent_strategy(), crate::gen::intent_strategy(), any::<u8>()).prop_map(|(base, i1, i2, mode)| {
         let mut c = base;
         // a quarter of the inputs get a bookkeeping failure planted into two securities (several error messages to order)
